@@ -71,8 +71,21 @@ func c05TipTransaction(c *rep.Ctx) {
 	c.Check("tip-tx", "chain.(*chainProcessor).connectToChain|no-side-write", f.Pos(), len(bad) == 0, "nothing is written to the store outside the transaction")
 	// the transaction index names the block that was connected
 	blk := f.ParamObj(0)
-	okArgs := argIs(info, conn[0].Call, 1, blk) && mentions(info, addTxs[0].Call.Args[1], blk) && mentions(info, addTxs[0].Call.Args[2], blk) &&
-		containsCallTo(info, addTxs[0].Call.Args[2], "types.(*Block).BlockHash")
+	// once-defined locals are looked through ( txs := block.GetBody().GetTxs() ); the exact pairing of list and
+	// hash with one block value is decided by index-own-hash in c05_gap.go
+	var expand func(e ast.Expr, depth int) ast.Expr
+	expand = func(e ast.Expr, depth int) ast.Expr {
+		e = ast.Unparen(e)
+		if o := an.ObjOf(info, e); o != nil && depth < 4 {
+			if rhs, _ := g.SingleDef(o); rhs != nil && rhs != e {
+				return expand(rhs, depth+1)
+			}
+		}
+		return e
+	}
+	a1, a2 := expand(addTxs[0].Call.Args[1], 0), expand(addTxs[0].Call.Args[2], 0)
+	okArgs := argIs(info, conn[0].Call, 1, blk) && mentions(info, a1, blk) && mentions(info, a2, blk) &&
+		containsCallTo(info, a2, "types.(*Block).BlockHash", "types.(*Block).GetHash")
 	c.Check("tip-tx", "chain.(*chainProcessor).connectToChain|same-block", conn[0].Call.Pos(), okArgs, "the transactions indexed and the block hash they are indexed under belong to the block being connected")
 	// ChainDB.connectToChain: height index and latest pointer for the same number
 	if cf := c.Fn("chain.(*ChainDB).connectToChain"); cf != nil {
@@ -88,7 +101,7 @@ func c05TipTransaction(c *rep.Ctx) {
 			}
 		}
 		for _, s := range sets {
-			if idx != nil && an.ObjOf(ci, s.Call.Args[0]) == idx && containsCallTo(ci, s.Call.Args[1], "types.(*Block).BlockHash") && mentions(ci, s.Call.Args[1], cf.ParamObj(1)) {
+			if idx != nil && an.ObjOf(ci, s.Call.Args[0]) == idx && containsCallTo(ci, s.Call.Args[1], "types.(*Block).BlockHash", "types.(*Block).GetHash") && mentions(ci, s.Call.Args[1], cf.ParamObj(1)) {
 				height = true
 			}
 		}
